@@ -163,7 +163,32 @@ def generic_sequence_update(
         )
 
 
+def without_changes_in_removed_code(all_changes: List[Change]) -> List[Change]:
+    """A nested snapshot() creates its own changes.
+
+    They have to be ignored if the code which contains this snapshot
+    is deleted or replaced by a change of the outer snapshot.
+    """
+    removed = [
+        change
+        for change in all_changes
+        if isinstance(change, (Delete, Replace)) and change.node is not None
+    ]
+
+    def is_removed(change):
+        node = getattr(change, "node", None)
+        while node is not None:
+            if any(r.node is node and r is not change for r in removed):
+                return True
+            node = getattr(node, "parent", None)
+        return False
+
+    return [change for change in all_changes if not is_removed(change)]
+
+
 def apply_all(all_changes: List[Change], recorder: ChangeRecorder):
+    all_changes = without_changes_in_removed_code(all_changes)
+
     by_parent: Dict[
         EnhancedAST, List[Union[Delete, DictInsert, ListInsert, CallArg]]
     ] = defaultdict(list)
